@@ -4,6 +4,7 @@ import (
 	"bytes"
 	"context"
 	"fmt"
+	"runtime"
 	"sort"
 	"strings"
 	"sync"
@@ -25,7 +26,7 @@ func init() {
 		Level: "exploration",
 		Rule: "sequential part: 1-3 sessions (p9p.SFileSys) on one FRESH ramfs instance (verif hook), PRNG-interleaved sequences of attach/clone/walk (incl. '..', '..' through directories removed by another session, missing names)/create (files and directories, colliding and invalid names)/open/read/write/truncate/stat/list/remove/clunk compared call by call with a reference tree model (DESIGN App. B): " +
 			"offsets from {0,1,len-1,len,len+1,2^31,2^63-1,2^63 (as int64), 2^64-1, rnd} and counts from {0,1,len,len+1,64 KiB}; listings as sets = model children + '..'; reads = model bytes; same node <=> same qid path. When every fid of every session has been clunked the refcount validator (hook) must be clean. " +
-			"concurrent part (race build): 2-8 sessions on one instance — creators/removers of colliding names, listers, stat-ers, walkers, and per-file writers/readers writing full-region unique patterns at offset 0; each file's read/write history is checked with porcupine against a register model (partitioned by file); any race report with a frame in ramfs/, any panic/fatal error (child crash) and a failing validator after all sessions clunked are violations. " +
+			"concurrent part (race build): 2-8 sessions on one instance — creators/removers of colliding names, listers, stat-ers, walkers, and per-file writers/readers writing full-region unique patterns at offset 0; each file's read/write history is checked with porcupine against a register model (partitioned by file); in a separate family 2-6 sessions create the same new name in one directory at the same instant (spin barrier) for thousands of rounds: exactly one create may succeed and a walk must reach the winner's file; any race report with a frame in ramfs/, any panic/fatal error (child crash) and a failing validator after all sessions clunked are violations. " +
 			"non-trivial = the sequence touches >= 2 sessions and >= 1 remove or extreme offset; distinct by op-trace hash",
 		Assumptions: []string{
 			"where the statement is silent the model is a relation: a write beyond EOF may be refused (state unchanged) or accepted (zero-filled hole); a read at/after EOF or at a negative offset may be an error or empty; '..' at the root may fail or stay; a read must return a non-empty prefix of the available bytes when any are available",
@@ -37,7 +38,7 @@ func init() {
 		Shards:    shards(8, 16),
 		Timeout:   timeouts(12*time.Minute, 90*time.Minute),
 		MinEvals:  1000,
-		Required:  []string{"op:walk", "op:walk-dotdot", "op:create", "op:remove", "op:read", "op:write", "op:list", "op:truncate", "extreme_offset_calls", "validator_runs", "dotdot_through_removed_dir", "concurrent_rounds", "register_histories_checked"},
+		Required:  []string{"op:walk", "op:walk-dotdot", "op:create", "op:remove", "op:read", "op:write", "op:list", "op:truncate", "extreme_offset_calls", "validator_runs", "dotdot_through_removed_dir", "concurrent_rounds", "register_histories_checked", "create_race_rounds"},
 		Run:       runC18,
 	})
 }
@@ -125,6 +126,130 @@ func runC18(w *mon.W) {
 		}
 		runC18Concurrent(w, i)
 	}
+	for i := 0; i < w.NShards; i++ {
+		if w.Mine(i) {
+			runC18CreateRace(w, i, w.Scale(2500, 60000))
+		}
+	}
+}
+
+// runC18CreateRace: several sessions create the same new name in the same directory at the
+// same moment (spin barrier), round after round. The tree holds one node per name: exactly
+// one create may succeed, the others must be refused, and a walk to the name must reach
+// the winner's file with the winner's bytes.
+func runC18CreateRace(w *mon.W, no, rounds int) {
+	ctx := context.Background()
+	fs := ramfs.VerifNewServer()
+	nsess := 2 + w.Rng.Intn(5)
+	w.Case("C18 create race #%d: %d sessions x %d rounds", no, nsess, rounds)
+	w.Eval()
+	sess := make([]p9p.Session, nsess)
+	for i := range sess {
+		sess[i] = p9p.SFileSys(fs)
+		sess[i].Attach(ctx, 1, p9p.NOFID, "u", "")
+	}
+	type res struct {
+		ok  bool
+		qid p9p.Qid
+	}
+	results := make([]res, nsess)
+	var arrived, roundNo int32
+	var wg sync.WaitGroup
+	stop := int32(0)
+	fail := make(chan string, 1)
+	for i := 0; i < nsess; i++ {
+		wg.Add(1)
+		go func(i int) {
+			defer wg.Done()
+			s := sess[i]
+			for rd := int32(1); rd <= int32(rounds) && atomic.LoadInt32(&stop) == 0; rd++ {
+				// barrier: wait until the coordinator opens round rd
+				for atomic.LoadInt32(&roundNo) < rd {
+					if atomic.LoadInt32(&stop) != 0 {
+						return
+					}
+					runtime.Gosched()
+				}
+				f := p9p.Fid(100)
+				s.Walk(ctx, 1, f)
+				q, _, err := s.Create(ctx, f, fmt.Sprintf("race%d", rd), 0644, p9p.ORDWR)
+				results[i] = res{err == nil, q}
+				if err == nil {
+					s.Write(ctx, f, []byte{byte(i + 1)}, 0)
+				}
+				s.Clunk(ctx, f)
+				atomic.AddInt32(&arrived, 1)
+			}
+		}(i)
+	}
+	check := p9p.SFileSys(fs)
+	check.Attach(ctx, 1, p9p.NOFID, "u", "")
+	done := 0
+	for rd := 1; rd <= rounds; rd++ {
+		atomic.StoreInt32(&arrived, 0)
+		atomic.StoreInt32(&roundNo, int32(rd))
+		for spins := 0; atomic.LoadInt32(&arrived) < int32(nsess); spins++ {
+			runtime.Gosched()
+			if spins > 200000000 {
+				atomic.StoreInt32(&stop, 1)
+				w.Inconclusive("create race: a round did not complete")
+				wg.Wait()
+				return
+			}
+		}
+		winners, winner := 0, -1
+		for i, r := range results {
+			if r.ok {
+				winners++
+				winner = i
+			}
+		}
+		name := fmt.Sprintf("race%d", rd)
+		msg := ""
+		if winners != 1 {
+			msg = fmt.Sprintf("%d of %d simultaneous creates of the new name %q in one directory reported success", winners, nsess, name)
+		} else {
+			f := p9p.Fid(200)
+			qs, err := check.Walk(ctx, 1, f, name)
+			if err != nil || len(qs) != 1 {
+				msg = fmt.Sprintf("%q was created (by session %d) but a walk to it fails: %v", name, winner, err)
+			} else {
+				buf := make([]byte, 4)
+				check.Open(ctx, f, p9p.OREAD)
+				n, _ := check.Read(ctx, f, buf, 0)
+				if qs[0].Path != results[winner].qid.Path || n != 1 || buf[0] != byte(winner+1) {
+					msg = fmt.Sprintf("a walk to %q reaches qid %v with content %v, the creator (session %d) got qid %v and wrote [%d]", name, qs[0], buf[:n], winner, results[winner].qid, winner+1)
+				}
+				check.Clunk(ctx, f)
+				// make room for the next round
+				if qs, err := check.Walk(ctx, 1, f, name); err == nil && len(qs) == 1 {
+					check.Remove(ctx, f)
+				}
+			}
+		}
+		if msg != "" {
+			atomic.StoreInt32(&stop, 1)
+			atomic.StoreInt32(&roundNo, int32(rounds+1))
+			w.Violate("mismatch", "C18:create-race", fmt.Sprintf("round %d: %s", rd, msg), nil)
+			select {
+			case fail <- msg:
+			default:
+			}
+			break
+		}
+		done++
+	}
+	atomic.StoreInt32(&roundNo, int32(rounds+1))
+	wg.Wait()
+	w.Count("create_race_rounds", int64(done))
+	for _, s := range sess {
+		s.Clunk(ctx, 1)
+	}
+	check.Clunk(ctx, 1)
+	if err := ramfs.VerifValidate(fs); err != nil && done == rounds {
+		w.Violate("mismatch", "C18:refcounts-concurrent", fmt.Sprintf("after the create races the validator reports: %v", err), nil)
+	}
+	w.NT(fmt.Sprintf("createrace/%d/%d", no, nsess))
 }
 
 func runC18Seq(w *mon.W, no int) {
